@@ -7,6 +7,7 @@ import (
 	"encoding/json"
 	"os"
 	"strconv"
+	"strings"
 	"sync"
 	"testing"
 )
@@ -62,5 +63,29 @@ func (o *verifWOut) emit(v interface{}) {
 	o.e.Encode(v)
 }
 func (o *verifWOut) close() { o.w.Flush(); o.f.Close() }
+
+// emitNow writes the line through to the file at once: a progress marker must survive a crash of the test process
+func (o *verifWOut) emitNow(v interface{}) {
+	o.mu.Lock()
+	defer o.mu.Unlock()
+	o.e.Encode(v)
+	o.w.Flush()
+	o.f.Sync()
+}
+
+// verifWIdSet parses a comma separated list of ids from the environment (nil = variable not set)
+func verifWIdSet(name string) map[int]bool {
+	v := os.Getenv(name)
+	if v == "" {
+		return nil
+	}
+	m := map[int]bool{}
+	for _, f := range strings.Split(v, ",") {
+		if n, err := strconv.Atoi(strings.TrimSpace(f)); err == nil {
+			m[n] = true
+		}
+	}
+	return m
+}
 
 func TestVerifNothing(t *testing.T) {}
